@@ -44,6 +44,32 @@ def tol(dtype):
     return max(1e-12, 4096 * torch.finfo(dtype).eps)
 
 
+def pl_rounding_bound(spot, unit, cost, payoff=None):
+    """Per-path bound on how far two correctly implemented evaluations of the terminal P&L of the SAME
+    position may be apart: the P&L is a sum of n = 2*H*T + 1 cash flows (gains unit_t (S_{t+1}-S_t), costs
+    c |unit_t - unit_{t-1}| S_t, the payoff); each term carries <= 3 roundings and a sum of n terms in ANY
+    order is within (n-1) eps * sum|terms| of the exact sum (Higham, Accuracy and Stability, eq. 4.4), so two
+    orders are within 2 (n+2) eps * sum|terms| of each other.  spot, unit: (N, H, T).  Returns (N,)."""
+    N, H, T = spot.shape
+    eps = torch.finfo(spot.dtype).eps
+    unit = unit.nan_to_num()
+    gains = (unit[..., :-1] * spot.diff(dim=-1)).abs().sum(dim=(-2, -1))
+    c = torch.tensor([float(x) for x in cost], dtype=spot.dtype).reshape(1, H, 1)
+    traded = torch.cat([unit[..., :1], unit.diff(dim=-1)], dim=-1).abs()
+    costs = (c * traded * spot).abs().sum(dim=(-2, -1))
+    flows = gains + costs + (0 if payoff is None else payoff.abs())
+    n = 2 * H * T + 1
+    return 2 * (n + 2) * eps * flows
+
+
+def loss_rounding_bound(pl_bound, n_paths, dtype, loss_value):
+    """EntropicRiskMeasure (log-mean-exp of -pl) is 1-Lipschitz in the sup norm of pl; its own evaluation
+    (exp, pairwise mean over N paths, log) adds <= 4 (log2 N + 16) eps (1 + |loss|)."""
+    import math
+    eps = torch.finfo(dtype).eps
+    return float(pl_bound.max()) + 4 * (math.log2(max(n_paths, 2)) + 16) * eps * (1 + abs(float(loss_value)))
+
+
 def repo_frame(exc):
     """'file:function' of the deepest pfhedge frame in the traceback of ``exc`` (None if the
     exception never passed through pfhedge code: then it is a harness bug).  Unlike runner.blame
@@ -130,7 +156,18 @@ def build_world(w):
     ul = w["ul"]
     dt = DTS[w.get("dt", "dyadic")]
     two = ul in market.TWO_FACTOR
-    spot, second, n_sym = market.joint_paths(w["As"], T, w.get("Av") if two else None, dtype=dtype)
+    if w.get("period"):
+        # long time grids (T in the hundreds): the complete tree is out of reach, so the path set is the
+        # complete set of PERIODIC paths of period k over the alphabet (all |A|^k of them), tiled to T
+        # columns.  Only used where the oracle is per path (C03: batched == stepwise), never for the
+        # prefix-tree oracles.
+        k = w["period"]
+        s0, v0, n_sym = market.joint_paths(w["As"], k, w.get("Av") if two else None, dtype=dtype)
+        reps = -(-T // k)
+        spot = s0.repeat(1, reps)[:, :T].contiguous()
+        second = None if v0 is None else v0.repeat(1, reps)[:, :T].contiguous()
+    else:
+        spot, second, n_sym = market.joint_paths(w["As"], T, w.get("Av") if two else None, dtype=dtype)
     orig = torch.arange(spot.size(0))
     if w.get("rows") is not None:
         orig = torch.tensor(sorted(w["rows"]), dtype=torch.long)
@@ -166,7 +203,7 @@ def build_world(w):
     out.p, out.d, out.spot, out.second, out.n_sym, out.T, out.orig = p, d, spot, second, n_sym, T, orig
     out.N = spot.size(0)
     out.dtype = dtype
-    out.full = w.get("rows") is None
+    out.full = w.get("rows") is None and not w.get("period")
     out.env = {"ul": ul, "strike": dkw.get("strike"), "dt": dt, "T": T, "sigma": SIGMA}
     # hedging instruments
     import pfhedge.instruments as I
